@@ -163,6 +163,17 @@ claim("C11", "fault_enumeration",
       "because that reproduces C14's known stall windows.",
       "DESIGN.md §4 C11")
 
+claim("C05", "exploration",
+      "property-based testing (Hypothesis) with fault injection: the real SocketStream/PipeStream and Channel driven over a "
+      "scripted fake socket / os shim (generated fragment lengths, transient timeouts/EAGAIN, end-of-stream or I/O error at "
+      "a generated byte offset) and, sampled, over a kernel socketpair with tiny buffers; sent-vs-received oracle",
+      "Packet sizes are drawn from named buckets around every boundary in the code (compression threshold, I/O chunk, "
+      "three-write path); every recv/send moves a generated number of bytes; faults land at generated offsets incl. every "
+      "position of the first header. The oracle is exact: same packets in order, prefix-then-EOFError on a fault, closed "
+      "stream afterwards; the wire is also parsed by the independent frame parser.",
+      "The fake socket is a blocking socket with timeout semantics; Win32 streams are not exercised.",
+      "DESIGN.md §4 C05")
+
 NOT_YET = "check not built yet in this revision (see DESIGN.md §8 build order)"
 
 
